@@ -59,10 +59,11 @@ VALUES = ['alpha', 'beta gamma', 'one two three four', 'a:b', 'x/y z', '', ' ', 
           'Ünï cödé', 'dup', 'dup', 'a  b', 'tab\tsep', 'Intro', 'Intro',
           'The quick brown fox', '??', ':::', 'index', 'sect1', 'q.html', 'a b', 'a-b', 'nb\xa0sp two three', 'e\u0301 combining x',
           'w1 w2 w3 w4 w5 w6 w7 w8 w9 w10 w11 w12']
-VARS = ['id', 'title', 'name', 'ref']
+VARS = ['id', 'title', 'name', 'ref', 'sec_id']          # (an underscore is part of a variable name)
 LITS = ['sect', 'file-', '_', 'index', 'toc', 'n', 'a.b', 'x', '-', 'p_', 'v.', '.h', 'dir/', 'd.x/', 'images/img-']
 BADS = [None, [': #$%^&*!~`"\'=?/{}[]()|<>;\\,.', '-'], [' :/', '_'], [':/', '-'], ['', '-'],
-        [' ', ''], ['\t :', '-'], [': #$%^&*!~`"\'=?/{}[]()|<>;\\,.', '_']]
+        [' ', ''], ['\t :', '-'], [': #$%^&*!~`"\'=?/{}[]()|<>;\\,.', '_'],
+        [':0', '-'], ['1 ', ''], ['2', 'x']]        # digits among the forbidden characters: the generated $num is exempt (its padding would go)
 EXTS = ['.html', '.html', '.html', '', '.xml', 'html']
 
 
